@@ -661,4 +661,118 @@ theorem compileOpt_spec (k : Kind) (v : Nat → Bool) : ∀ (e : Option Node) (e
       exact compile_spec k v n r hc
 end
 
+/-! ### rejection as a whole -/
+
+mutual
+theorem compile_okB : ∀ n : Node, okB (compile n) = valid n
+  | .leaf l caps fq fs scope => by simp [compile, valid, newResult_okB]
+  | .unknown => by simp [compile, valid, okB]
+  | .malformed => by simp [compile, valid, okB]
+  | .fifo scope agg cs => by
+    have ih := compileList_okB cs
+    simp only [compile, valid]
+    cases hc : compileList cs with
+    | error e => rw [hc] at ih; simp only [okB] at ih; simp [okB, ← ih]
+    | ok rs => rw [hc] at ih; simp only [okB] at ih; simp [← ih, newResult_okB]
+  | .prio scope cs => by
+    have ih := compilePList_okB cs
+    simp only [compile, valid]
+    cases hc : compilePList cs with
+    | error e => rw [hc] at ih; simp only [okB] at ih; simp [okB, ← ih]
+    | ok rs => rw [hc] at ih; simp only [okB] at ih; simp [← ih, newResult_okB]
+  | .filter c scope t e => by
+    have iht := compile_okB t
+    have ihe := compileOpt_okB e
+    simp only [compile, valid]
+    cases hc : compile t with
+    | error err => rw [hc] at iht; simp only [okB] at iht; simp [okB, ← iht]
+    | ok m =>
+      rw [hc] at iht; simp only [okB] at iht
+      cases he : compileOpt e with
+      | error err => rw [he] at ihe; simp only [okB] at ihe; simp [okB, ← iht, ← ihe]
+      | ok em => rw [he] at ihe; simp only [okB] at ihe; simp [← iht, ← ihe, newResult_okB]
+theorem compileList_okB : ∀ cs : List Node, okB (compileList cs) = validList cs
+  | [] => by simp [compileList, validList, okB]
+  | c :: cs => by
+    have ihc := compile_okB c
+    have ihl := compileList_okB cs
+    simp only [compileList, validList]
+    cases hc : compile c with
+    | error e => rw [hc] at ihc; simp only [okB] at ihc; simp [okB, ← ihc]
+    | ok r =>
+      rw [hc] at ihc; simp only [okB] at ihc
+      cases hl : compileList cs with
+      | error e => rw [hl] at ihl; simp only [okB] at ihl; simp [okB, ← ihc, ← ihl]
+      | ok rs => rw [hl] at ihl; simp only [okB] at ihl; simp [okB, ← ihc, ← ihl]
+theorem compilePList_okB : ∀ cs : List (Int × Node), okB (compilePList cs) = validPList cs
+  | [] => by simp [compilePList, validPList, okB]
+  | (p, c) :: cs => by
+    have ihc := compile_okB c
+    have ihl := compilePList_okB cs
+    simp only [compilePList, validPList]
+    cases hc : compile c with
+    | error e => rw [hc] at ihc; simp only [okB] at ihc; simp [okB, ← ihc]
+    | ok r =>
+      rw [hc] at ihc; simp only [okB] at ihc
+      cases hl : compilePList cs with
+      | error e => rw [hl] at ihl; simp only [okB] at ihl; simp [okB, ← ihc, ← ihl]
+      | ok rs => rw [hl] at ihl; simp only [okB] at ihl; simp [okB, ← ihc, ← ihl]
+theorem compileOpt_okB : ∀ e : Option Node, okB (compileOpt e) = validOpt e
+  | none => by simp [compileOpt, validOpt, okB]
+  | some n => by
+    have ih := compile_okB n
+    simp only [compileOpt, validOpt]
+    cases hc : compile n with
+    | error err => rw [hc] at ih; simp only [okB] at ih; simp [okB, ← ih]
+    | ok r => rw [hc] at ih; simp only [okB] at ih; simp [okB, ← ih]
+end
+
+/-! ### order characterisation, error policy helpers -/
+
+theorem insertAll_perm {α : Type} (xs : List (Int × α)) : (insertAll xs).Perm xs := by
+  induction xs using snocInd with
+  | h0 => simp [insertAll]
+  | h1 xs x ih =>
+    rw [insertAll_snoc]
+    exact (ins_perm x _).trans ((List.Perm.cons x ih).trans (List.perm_append_comm (l₁ := [x]) (l₂ := xs)))
+
+theorem filter_insertAll {α : Type} (p : Int) (xs : List (Int × α)) :
+    (insertAll xs).filter (fun y => y.1 == p) = xs.reverse.filter (fun y => y.1 == p) := by
+  induction xs using snocInd with
+  | h0 => simp [insertAll]
+  | h1 xs x ih =>
+    rw [insertAll_snoc, filter_ins, ih]
+    by_cases hx : (x.1 == p) = true
+    · simp [hx, List.filter_cons]
+    · simp [hx, List.filter_cons]
+
+theorem fifoLoop_false_stop (pre : List Outcome) (t : Trace) (e : Err) (post : List Outcome)
+    (hpre : ∀ o ∈ pre, o.2 = .none) (he : e ≠ .none) :
+    fifoLoop false (pre ++ (t, e) :: post) [] = (pre.flatMap (·.1) ++ t, e) := by
+  induction pre with
+  | nil => cases e <;> simp_all [fifoLoop]
+  | cons o pre ih =>
+    obtain ⟨t0, e0⟩ := o
+    have h0 : e0 = .none := hpre (t0, e0) (by simp)
+    subst h0
+    have := ih (fun o ho => hpre o (List.mem_cons_of_mem _ ho))
+    simp only [List.cons_append, fifoLoop, this, List.flatMap_cons, List.append_assoc]
+
+theorem prioLoop_stop (pre : List Outcome) (t : Trace) (e : Err) (post : List Outcome)
+    (hpre : ∀ o ∈ pre, o.2 = .none) (he : e ≠ .none) :
+    prioLoop (pre ++ (t, e) :: post) = (pre.flatMap (·.1) ++ t, e) := by
+  induction pre with
+  | nil => cases e <;> simp_all [prioLoop]
+  | cons o pre ih =>
+    obtain ⟨t0, e0⟩ := o
+    have h0 : e0 = .none := hpre (t0, e0) (by simp)
+    subst h0
+    have := ih (fun o ho => hpre o (List.mem_cons_of_mem _ ho))
+    simp only [List.cons_append, prioLoop, this, List.flatMap_cons, List.append_assoc]
+
+theorem allErrors_eq (os : List SOutcome) : allErrors os = (os.flatMap (·.1), os.flatMap (·.2)) := by
+  induction os with
+  | nil => simp [allErrors]
+  | cons o os ih => obtain ⟨t, es⟩ := o; simp [allErrors, ih]
+
 end Martian.Config
